@@ -308,6 +308,13 @@ def _tree_structure(E, t=None, *a, **k):
     return NotImplemented
 
 
+def _tree_flatten(E, t=None, *a, **k):
+    """jax.tree_util.tree_flatten(t) == (tree_leaves(t), tree_structure(t))"""
+    if isinstance(t, LeafState):
+        return (_py_leaves(E, t), Opaque("treedef", t.struct))
+    return NotImplemented
+
+
 def _tree_unflatten(E, treedef=None, leaves=None, *a, **k):
     if isinstance(treedef, Opaque) and treedef.tag == "treedef" and isinstance(treedef.payload, tuple) and treedef.payload[0] in ("paramnet", "paramnet-all"):
         xs = list(E.iterate(leaves))
@@ -323,6 +330,8 @@ for _p in ("jax.tree_util.tree_structure", "jax.tree.structure"):
     _wrap(_p, _tree_structure)
 for _p in ("jax.tree_util.tree_unflatten", "jax.tree.unflatten"):
     _wrap(_p, _tree_unflatten)
+for _p in ("jax.tree_util.tree_flatten", "jax.tree.flatten"):
+    _wrap(_p, _tree_flatten)
 
 
 # =================================================================== rules
